@@ -226,4 +226,6 @@ def check_aws_allocfail(ctx):
                samples=[cases[0][:160]])
 
 
-SUBCHECKS = {"C19": [check_aws], "C14": [check_aws_allocfail]}
+# the failure histories also stand under C19: the signature of the first successful call AFTER a refused
+# allocation must still be the right one (nothing a failed call left behind may enter it; seed C19-n)
+SUBCHECKS = {"C19": [check_aws, check_aws_allocfail], "C14": [check_aws_allocfail]}
